@@ -264,6 +264,9 @@ func (s *Solver) Check(extra *Term, vars []*Term) (CheckResult, map[string]uint6
 		s.flush()
 		r2, m2 := s.fallback(extra, vars)
 		d := time.Since(t0)
+		if d > 3*time.Second && os.Getenv("GOSYM_SLOW") != "" {
+			fmt.Fprintf(os.Stderr, "SLOW FALLBACK %.1fs res=%s extra=%s\n", d.Seconds(), r2, extra.String())
+		}
 		s.Time += d
 		if d > s.MaxQ {
 			s.MaxQ = d
@@ -436,8 +439,13 @@ func (s *Solver) fallback(extra *Term, vars []*Term) (CheckResult, map[string]ui
 		{"cvc5", []string{"--lang=smt2", "--produce-models", fmt.Sprintf("--tlimit=%d", to*500), f.Name()}},
 		{z3bin, []string{fmt.Sprintf("-T:%d", to), f.Name()}},
 	}
-	for _, at := range attempts {
-		out, _ := exec.Command(at.bin, at.args...).CombinedOutput()
+	// first: cvc5 with the integer encoding of bit-vector arithmetic (decides linear 64-bit arithmetic in milliseconds)
+	{
+		lim := to * 1000 / 8
+		if lim < 5000 {
+			lim = 5000
+		}
+		out, _ := exec.Command("cvc5", "--lang=smt2", "--produce-models", "--solve-bv-as-int=sum", fmt.Sprintf("--tlimit=%d", lim), f.Name()).CombinedOutput()
 		lines := strings.Split(string(out), "\n")
 		for i, l := range lines {
 			l = strings.TrimSpace(l)
@@ -450,14 +458,77 @@ func (s *Solver) fallback(extra *Term, vars []*Term) (CheckResult, map[string]ui
 				res = ResUnsat
 				break
 			}
-			if strings.HasPrefix(l, "(error") && !strings.Contains(l, "model is not available") && !strings.Contains(l, "Cannot get value") {
-				fmt.Fprintln(os.Stderr, "FALLBACK SOLVER ERROR:", at.bin, l)
-				return ResError, nil
-			}
 		}
 		if res != ResUnknown {
+			s.FallbackOK++
+			var model map[string]uint64
+			if res == ResSat && len(vars) > 0 {
+				model = map[string]uint64{}
+				parseModel(rest, vars, s, model)
+			}
+			return res, model
+		}
+	}
+	attempts = attempts[:0]
+	attempts = append(attempts,
+		attempt{"z3", []string{fmt.Sprintf("-T:%d", to), f.Name()}},
+		attempt{"z3-new", []string{fmt.Sprintf("-T:%d", to), f.Name()}},
+		attempt{"cvc5", []string{"--lang=smt2", "--produce-models", fmt.Sprintf("--tlimit=%d", to*1000), f.Name()}})
+	type outcome struct {
+		res  CheckResult
+		rest string
+		bin  string
+	}
+	ch := make(chan outcome, len(attempts))
+	var cmds []*exec.Cmd
+	for _, at := range attempts {
+		cmd := exec.Command(at.bin, at.args...)
+		cmds = append(cmds, cmd)
+		go func(cmd *exec.Cmd, bin string) {
+			out, _ := cmd.CombinedOutput()
+			lines := strings.Split(string(out), "\n")
+			o := outcome{res: ResUnknown, bin: bin}
+			for i, l := range lines {
+				l = strings.TrimSpace(l)
+				if l == "sat" {
+					o.res = ResSat
+					o.rest = strings.Join(lines[i+1:], " ")
+					break
+				}
+				if l == "unsat" {
+					o.res = ResUnsat
+					break
+				}
+				if strings.HasPrefix(l, "(error") && !strings.Contains(l, "model is not available") && !strings.Contains(l, "Cannot get value") {
+					fmt.Fprintln(os.Stderr, "FALLBACK SOLVER ERROR:", bin, l)
+					o.res = ResError
+					break
+				}
+			}
+			ch <- o
+		}(cmd, at.bin)
+	}
+	nerr := 0
+	for range attempts {
+		o := <-ch
+		if o.res == ResSat || o.res == ResUnsat {
+			res, rest = o.res, o.rest
 			break
 		}
+		if o.res == ResError {
+			nerr++
+		}
+	}
+	for _, c := range cmds {
+		if c.Process != nil {
+			c.Process.Kill()
+		}
+	}
+	if res == ResUnknown && nerr == len(attempts) {
+		return ResError, nil
+	}
+	if d := os.Getenv("GOSYM_KEEP_SLOW"); d != "" {
+		os.WriteFile(fmt.Sprintf("%s/slow_%d_%p_%d.smt2", d, os.Getpid(), s, s.Fallbacks), []byte(sb.String()), 0644)
 	}
 	if res != ResUnknown {
 		s.FallbackOK++
